@@ -153,6 +153,7 @@ func (c *ctx) decAll(kind string, s []byte) {
 }
 
 func (c *ctx) reqEnc(l, p, s, r []byte) []byte {
+	c.poison()
 	q := &sasl.Request{Login: string(l), Password: string(p), Service: string(s), Realm: string(r)}
 	cmd := fmt.Sprintf("sasl.reqenc %s %s %s %s", xb(l), xb(p), xb(s), xb(r))
 	var buf bytes.Buffer
@@ -186,7 +187,35 @@ func (c *ctx) reqEnc(l, p, s, r []byte) []byte {
 	return out
 }
 
+// failWriter accepts `n` bytes and then fails: a peer that hung up while the message was written.
+type failWriter struct{ n int }
+
+func (f *failWriter) Write(p []byte) (int, error) {
+	if len(p) <= f.n {
+		f.n -= len(p)
+		return len(p), nil
+	}
+	k := f.n
+	f.n = 0
+	return k, io.ErrClosedPipe
+}
+
+// poison: encode some OTHER message into a writer that breaks after 0..5 bytes. What an encoder
+// produces afterwards must not depend on that (the wire format is a function of the message).
+func (c *ctx) poison() {
+	if c.r.Intn(6) != 0 {
+		return
+	}
+	k := c.r.Intn(6)
+	if c.r.Bool() {
+		(&sasl.Response{Result: true, Message: "leftover"}).Encode(&failWriter{n: k}) //nolint:errcheck
+	} else {
+		(&sasl.Request{Login: "stale", Password: "stale-pw", Service: "s", Realm: "r"}).Encode(&failWriter{n: k}) //nolint:errcheck
+	}
+}
+
 func (c *ctx) respEnc(ok bool, msg []byte) []byte {
+	c.poison()
 	q := &sasl.Response{Result: ok, Message: string(msg)}
 	cmd := fmt.Sprintf("sasl.respenc %s %s", tf(ok), xb(msg))
 	var buf bytes.Buffer
